@@ -268,7 +268,7 @@ func TestVerifC03_cbd(t *testing.T) {
 		n3g   int
 		calls int
 	}
-	wantG := r.Thorough()
+	wantG := r.Thorough() && !c03Small
 	newCov := func() *cov {
 		c := &cov{}
 		if wantG {
